@@ -38,6 +38,7 @@ type udpGate struct {
 	back   map[string]*net.UDPConn
 	first  chan struct{}
 	once   sync.Once
+	nrecv  atomic.Int64 // datagrams received from the client
 }
 
 func newUDPGate(server *net.UDPAddr) (*udpGate, error) {
@@ -84,6 +85,7 @@ func (g *udpGate) loop() {
 			return
 		}
 		p := heldPkt{from, append([]byte(nil), buf[:n]...)}
+		g.nrecv.Add(1)
 		g.mu.Lock()
 		if g.hold {
 			g.held = append(g.held, p)
@@ -301,6 +303,7 @@ type h3obs struct {
 	ReturnMs      int64    `json:"return_ms"`
 	Arrived       bool     `json:"request_arrived"`
 	PeerSawCancel bool     `json:"peer_saw_cancel"`
+	LatePackets   int64    `json:"datagrams_0.3s_to_1.5s_after_return"` // dial phase only: handshake packets still sent after the call returned
 	ReqBody       bool     `json:"req_body"`
 	ReqBodyClosed bool     `json:"req_body_closed"`
 	ReadsAfter    int64    `json:"reads_after"`
@@ -653,6 +656,14 @@ func runH3(sp h3spec, kind string, pos int, racy bool) (o h3obs) {
 		}
 	}
 
+	if !sp.Reuse && !sp.BadHost && pos <= 1 && !racy && (kind == "cancel" || kind == "deadline") {
+		// the context ended while the QUIC handshake got no answer: the dial belongs to this request,
+		// nothing may go on retransmitting handshake packets for it
+		time.Sleep(300 * time.Millisecond)
+		n0 := gate.nrecv.Load()
+		time.Sleep(1200 * time.Millisecond)
+		o.LatePackets = gate.nrecv.Load() - n0
+	}
 	// ----- epilogue -----
 	gate.setHold(false)
 	if err := r.finishBlocker(); err != nil {
